@@ -1,4 +1,5 @@
 //verif:overlay immutable/zz_verif_c03b.go
+//verif:whitebox
 package immutable
 
 import (
